@@ -16,6 +16,7 @@ mod c03;
 mod c04;
 mod c05;
 mod c06;
+mod c07;
 mod c08;
 mod c09;
 mod c10;
@@ -71,6 +72,7 @@ fn main() {
         "c04" => c04::run(&mut ctx),
         "c05" => c05::run(&mut ctx),
         "c06" => c06::run(&mut ctx),
+        "c07" => c07::run(&mut ctx),
         "c09" => c09::run(&mut ctx),
         "c10" | "c01" => c10::run(&mut ctx),
         "c11" => c11::run(&mut ctx),
